@@ -69,7 +69,9 @@ func Callee(c ssa.CallInstruction) string {
 				if sel := types.NewMethodSet(v.Type()).Lookup(cc.Method.Pkg(), cc.Method.Name()); sel != nil {
 					if f, ok := sel.Obj().(*types.Func); ok {
 						if _, named := v.Type().(*types.Named); named {
-							return Short("(" + v.Type().String() + ")." + f.Name())
+							// the interface that declares it (RecoveringServerStorer embeds
+							// ServerStorer: Save is ServerStorer's)
+							return Short(f.FullName())
 						}
 					}
 				}
